@@ -476,7 +476,7 @@ func checkC19(r *Run) {
 				}
 			}
 			if fe := nonNilEdges(ka, ping); len(fe) == 1 && ctxTo != nil {
-				c.ruleKeepAliveClassify(r5, ka, ka.Params[0], ctxTo, wt, ping, fe[0], true)
+				c.ruleKeepAliveClassify(r5, ka, ka.Params[0], ctxTo, wt, ping, fe[0])
 			}
 		}
 	}
